@@ -434,3 +434,10 @@ def r13_5(ctx):
         i = ctor_params.index("meta")
         got = args[i] if i < len(args) else kw.get("meta")
         ctx.check("the record carries the per-part attribute list filled in the loop", got in sinks, f"meta argument = {sorted(sinks)[0]}", str(got), fn_where(idx, fi))
+
+
+@rule("R13.6", "C13", "the attributes describe the construct that was transformed, not how it was printed: flags are only set while the tree is transformed, never from the emission phase", min_instances=1)
+def r13_6(ctx):
+    from .c16 import phase_separation
+
+    phase_separation(ctx)
